@@ -46,6 +46,8 @@ struct inst {
 
 static vbi_decoder *vbi;
 static int udata[NU];
+/* user pointer 0 is NULL: (function, NULL) is a handler identity like any other */
+#define UPTR(u) ((u) == 0 ? NULL : (void *)&udata[u])
 static struct script scripts[NF][NU];
 static struct inst insts[MAXINST];
 static int n_inst;
@@ -192,7 +194,7 @@ static void on_call(int f, vbi_event *ev, void *ud)
 	struct inst *x;
 	struct script *sc;
 
-	for (i = 0; i < NU; i++) if (ud == (void *)&udata[i]) u = i;
+	for (i = 0; i < NU; i++) if (ud == UPTR(i)) u = i;
 	n_callbacks++;
 	if (in_callback) {
 		vf_fail("model:C11:nested-callback", "handler f%d called while another callback is running", f);
@@ -313,17 +315,17 @@ static void do_action(const struct action *a, struct inst *self, int group)
 	switch (a->op) {
 	case OP_REG:
 		vf_phase("vbi_event_handler_register");
-		ok = vbi_event_handler_register(vbi, a->mask, hfn[a->f], &udata[a->u]);
+		ok = vbi_event_handler_register(vbi, a->mask, hfn[a->f], UPTR(a->u));
 		m_register(a->f, a->u, a->mask);
 		break;
 	case OP_UNREG:
 		vf_phase("vbi_event_handler_unregister");
-		vbi_event_handler_unregister(vbi, hfn[a->f], &udata[a->u]);
+		vbi_event_handler_unregister(vbi, hfn[a->f], UPTR(a->u));
 		m_register(a->f, a->u, 0);
 		break;
 	case OP_ADD:
 		vf_phase("vbi_event_handler_add");
-		ok = vbi_event_handler_add(vbi, a->mask, hfn[a->f], &udata[a->u]);
+		ok = vbi_event_handler_add(vbi, a->mask, hfn[a->f], UPTR(a->u));
 		m_add(a->f, a->u, a->mask);
 		break;
 	case OP_REMOVE:
@@ -694,7 +696,7 @@ static int end_case(void)
 	for (i = 0; i < n_inst; i++) {
 		if (!insts[i].alive) continue;
 		live++;
-		if (!eh || eh->handler != hfn[insts[i].f] || eh->user_data != (void *)&udata[insts[i].u] || eh->event_mask != insts[i].mask) {
+		if (!eh || eh->handler != hfn[insts[i].f] || eh->user_data != UPTR(insts[i].u) || eh->event_mask != insts[i].mask) {
 			vf_fail("model:C11:list-mismatch", "final handler list differs from the model at instance #%ld (f%d/u%d mask 0x%x): library has %s mask 0x%x; history: %s",
 				insts[i].seq, insts[i].f, insts[i].u, insts[i].mask, eh ? "another record" : "no record", eh ? eh->event_mask : 0, hist);
 			break;
